@@ -109,8 +109,8 @@ fn finalize_body<const NV: usize, const NA: usize>(fast_start: bool, audio_track
     }
     let end = if fast_start { sink.total } else { moov_pos };
     assert!(end == data_start + payload_total || !have_mdat, "sample ranges cover the mdat payload exactly");
-    kani::cover!(reordered, "reordered video reached");
-    kani::cover!(!reordered && NV >= 2, "in-order video reached");
+    crate::vcover!(reordered, "reordered video reached");
+    crate::vcover!(!reordered && NV >= 2, "in-order video reached");
     core::mem::forget((w, r));
 }
 
